@@ -84,13 +84,16 @@ struct World {
 // the query node changed - in particular it hashes to the same verification string; other nodes get item-not-found
 // The node texts are concrete per instance (scenario), so that the accept/refuse decision of handleIq is a single path; the
 // info set returned by capabilities() is symbolic.
+static Txt mkTxt(unsigned len, unsigned short c0, unsigned short c1, unsigned short c2) { Txt t; t.len = len; t.c[0] = c0; t.c[1] = c1; t.c[2] = c2; return t; }
 static void scenario(Txt &capNode, Txt &node, bool &addressed)
 {
     unsigned sc = symCount(2, 3);
-    if (sc == 0) { capNode = litTxt("ab"); node = litTxt(""); addressed = true; }          // query without node
-    else if (sc == 1) { capNode = litTxt("ab"); node = litTxt("abB"); addressed = true; }  // node#ver form: starts with the caps node
-    else if (sc == 2) { capNode = litTxt(""); node = litTxt("b"); addressed = true; }      // empty caps node: every node is the own one
-    else { capNode = litTxt("ab"); node = litTxt("ba"); addressed = false; }               // foreign node
+    capNode = mkTxt(sc == 2 ? 0 : 2, 'a', 'b', 0);                // "ab", or "" in scenario 2
+    if (sc == 0) node = mkTxt(0, 0, 0, 0);                         // query without node
+    else if (sc == 1) node = mkTxt(3, 'a', 'b', 'B');              // node#ver form: starts with the capabilities node
+    else if (sc == 2) node = mkTxt(1, 'b', 0, 0);                  // empty capabilities node: every node is the own one
+    else node = mkTxt(2, 'b', 'a', 0);                             // foreign node
+    addressed = sc != 3;
 }
 extern "C" void h_handle_info()
 {
